@@ -11,6 +11,7 @@ EXTENDS Integers, Sequences, FiniteSets, TLC, Json
 CONSTANT TraceFile
 Trace == ndJsonDeserialize(TraceFile)
 Min2(a, b) == IF a < b THEN a ELSE b
+Max2(a, b) == IF a > b THEN a ELSE b
 Refill(T, rps, burst, dt) == Min2(burst * 1000, T + rps * dt)
 
 VARIABLES l, B     \* B: limiter name -> [T, last, rps, burst]
@@ -33,11 +34,13 @@ Rate ==
         THEN /\ Chk("unlimited_never_429", e.admitted = e.m)
              /\ UNCHANGED B
         ELSE LET b  == B[e.limiter]
-                 T1 == Refill(b.T, b.rps, b.burst, e.now - b.last)
+                 \* a timestamp older than the newest one the bucket has seen (a request that read the clock and was
+                 \* overtaken before it reached the limiter) earns no refill and does not move the reference back
+                 T1 == Refill(b.T, b.rps, b.burst, Max2(0, e.now - b.last))
              IN /\ Chk("admit_only_with_token", e.admitted * 1000 <= T1)
                 /\ Chk("refuse_only_when_empty", e.admitted < e.m => T1 - e.admitted * 1000 < 2000)
                 /\ Chk("refused_are_429_and_store_nothing", e.enq = e.accepted /\ e.accepted <= e.admitted)
-                /\ B' = [B EXCEPT ![e.limiter] = [b EXCEPT !.T = IF e.admitted * 1000 <= T1 THEN T1 - e.admitted * 1000 ELSE 0, !.last = e.now]]
+                /\ B' = [B EXCEPT ![e.limiter] = [b EXCEPT !.T = IF e.admitted * 1000 <= T1 THEN T1 - e.admitted * 1000 ELSE 0, !.last = Max2(b.last, e.now)]]
 
 \* a request to an unknown path consumes no token and stores nothing
 NoRoute ==
